@@ -11,7 +11,7 @@
    C15-session-counter (a session of peer [a] acts while the RIB still holds
    paths of another session of [a]). *)
 From Coq Require Import List NArith ZArith Bool.
-From RB Require Import Base.Val Model.Rib Spec.RibSpec Proofs.RibInv Proofs.RibC02 Proofs.RibC15.
+From RB Require Import Base.Val Model.Rib Spec.RibSpec Proofs.RibInv Proofs.RibC02 Proofs.RibC15 Proofs.RibC15L.
 Import ListNotations.
 Open Scope N_scope.
 
@@ -91,3 +91,54 @@ Check limit_counter_refuted :
     /\ snd (step (run (empty_table shard) ops)
                  (Insert (ex_src 11 1 9 0) 2 0 (Some 1) kf_attr false false (Some (mx c, c)))) = true.
 Print Assumptions limit_counter_refuted.
+
+(* Outside the known class: while a session is alive its prefix-limit counter equals
+   the number of prefixes it holds, and that number never exceeds the configured
+   maximum (an insert that would exceed it is rejected with PrefixLimitExceeded and
+   installs nothing). *)
+Theorem limit_respected_outside_known :
+  forall f mx shard ops c,
+    Forall (op_wf f) ops -> Forall (ctr_disciplined f mx) ops -> mx c < 4294967296 ->
+    session_alive (f c) c false ops = true ->
+    ~ Known_C15_two_sessions (f c) shard ops ->
+    let t := run (empty_table shard) ops in
+    ctr_of t c = sess_recount t c /\ sess_recount t c <= mx c.
+Proof. exact C15_limit_respected_outside_known. Qed.
+Check limit_respected_outside_known :
+  forall f mx shard ops c,
+    Forall (op_wf f) ops -> Forall (ctr_disciplined f mx) ops -> mx c < 4294967296 ->
+    session_alive (f c) c false ops = true ->
+    ~ Known_C15_two_sessions (f c) shard ops ->
+    let t := run (empty_table shard) ops in
+    ctr_of t c = sess_recount t c /\ sess_recount t c <= mx c.
+Print Assumptions limit_respected_outside_known.
+
+(* An insert answered with PrefixLimitExceeded leaves the table exactly as it was
+   (nothing installed, no empty destination, no id consumed): together with the
+   previous theorem, a session never holds more than its maximum, and the only
+   inserts that do not take effect are the signalled ones. *)
+Theorem limit_rejection_installs_nothing :
+  forall t s net rpid nh a filt nhinv lim,
+    snd (step t (Insert s net rpid nh a filt nhinv lim)) = true ->
+    fst (fst (step t (Insert s net rpid nh a filt nhinv lim))) = t.
+Proof. exact C15_limit_rejection_installs_nothing. Qed.
+Check limit_rejection_installs_nothing :
+  forall t s net rpid nh a filt nhinv lim,
+    snd (step t (Insert s net rpid nh a filt nhinv lim)) = true ->
+    fst (fst (step t (Insert s net rpid nh a filt nhinv lim))) = t.
+Print Assumptions limit_rejection_installs_nothing.
+
+(* Table::remove unwraps the peer's statistics entry: whenever it finds the path to
+   remove, the entry exists (no panic on a missing entry). *)
+Theorem remove_finds_stats :
+  forall shard ops s net rpid d removed,
+    let t := run (empty_table shard) ops in
+    alookup net (t_dests t) = Some d -> find (same_key s rpid) (d_entries d) = Some removed ->
+    alookup (s_addr s) (t_stats t) <> None.
+Proof. exact C15_remove_finds_stats. Qed.
+Check remove_finds_stats :
+  forall shard ops s net rpid d removed,
+    let t := run (empty_table shard) ops in
+    alookup net (t_dests t) = Some d -> find (same_key s rpid) (d_entries d) = Some removed ->
+    alookup (s_addr s) (t_stats t) <> None.
+Print Assumptions remove_finds_stats.
